@@ -30,44 +30,160 @@ type bceFinding struct {
 
 var bceLine = regexp.MustCompile(`^(.+\.go):(\d+):(\d+): Found (IsInBounds|IsSliceInBounds)`)
 
-// compilerBCE runs `go build -gcflags=-d=ssa/check_bce/debug=1` on one package
-// (honouring the in-memory overlay) and returns every bounds check the
-// compiler could not prove away.
+// bceSentinel is compiled together with the package on every run: the
+// compiler must report the index at line 4 (nothing bounds i) and must not
+// report the one at line 8 (the length test proves it). A run in which the
+// first report is missing has not seen the prove pass's output at all; a run
+// in which the second appears was compiled without the prove pass.
+const bceSentinel = `package %s
+
+func sqljsonlintSentinelUnproven(s []int, i int) int {
+	return s[i]
+}
+
+func sqljsonlintSentinelProven(s []int) int {
+	if len(s) > 3 {
+		return s[3]
+	}
+	return 0
+}
+`
+
+const (
+	bceSentinelUnprovenLine = 4
+)
+
+type listedPkg struct {
+	Dir           string
+	ImportPath    string
+	Name          string
+	Export        string
+	DepOnly       bool
+	Standard      bool
+	GoFiles       []string
+	CgoFiles      []string
+	SFiles        []string
+	EmbedPatterns []string
+	ImportMap     map[string]string
+	Module        *struct{ GoVersion string }
+}
+
+// compilerBCE compiles one package with -d=ssa/check_bce/debug=1 (honouring
+// the in-memory overlay) and returns every bounds check the compiler could
+// not prove away.
+//
+// The compiler is run directly (`go tool compile` with an import
+// configuration taken from `go list -export -deps`), never through `go
+// build`: for a package that is up to date `go build` does not compile, it
+// replays the compiler output stored in the build cache, and prints nothing —
+// with exit status 0 — when that stored output has gone (a cache trimmed or
+// restored in part). An empty report would discharge every obligation.
 func (p *Prog) compilerBCE(pkgRel string) ([]bceFinding, error) {
-	args := []string{"build", "-gcflags=-d=ssa/check_bce/debug=1"}
-	if len(p.Overlay) > 0 {
-		tmp, err := os.MkdirTemp("", "sqljsonlint-ov-")
-		if err != nil {
+	tmp, err := os.MkdirTemp("", "sqljsonlint-bce-")
+	if err != nil {
+		return nil, err
+	}
+	defer os.RemoveAll(tmp)
+	run := func(args ...string) (string, string, error) {
+		cmd := exec.Command("go", args...)
+		cmd.Dir = p.RepoDir
+		cmd.Env = p.Env
+		var out, errb bytes.Buffer
+		cmd.Stdout, cmd.Stderr = &out, &errb
+		err := cmd.Run()
+		return out.String(), errb.String(), err
+	}
+
+	// the overlay, on disk: original path → replacement and back
+	rep, back := map[string]string{}, map[string]string{}
+	var paths []string
+	for path := range p.Overlay {
+		paths = append(paths, path)
+	}
+	sort.Strings(paths)
+	for i, path := range paths {
+		f := filepath.Join(tmp, fmt.Sprintf("f%d.go", i))
+		if err := os.WriteFile(f, p.Overlay[path], 0o644); err != nil {
 			return nil, err
 		}
-		defer os.RemoveAll(tmp)
-		rep := map[string]string{}
-		i := 0
-		for path, content := range p.Overlay {
-			f := filepath.Join(tmp, fmt.Sprintf("f%d.go", i))
-			i++
-			if err := os.WriteFile(f, content, 0o644); err != nil {
-				return nil, err
-			}
-			rep[path] = f
-		}
+		rep[path], back[f] = f, path
+	}
+	listArgs := []string{"list", "-export", "-deps",
+		"-json=Dir,ImportPath,Name,Export,DepOnly,Standard,GoFiles,CgoFiles,SFiles,EmbedPatterns,ImportMap,Module"}
+	if len(rep) > 0 {
 		b, _ := json.Marshal(map[string]any{"Replace": rep})
 		ovf := filepath.Join(tmp, "overlay.json")
 		if err := os.WriteFile(ovf, b, 0o644); err != nil {
 			return nil, err
 		}
-		args = append(args, "-overlay", ovf)
+		listArgs = append(listArgs, "-overlay", ovf)
 	}
-	args = append(args, pkgRel)
-	cmd := exec.Command("go", args...)
-	cmd.Dir = p.RepoDir
-	cmd.Env = p.Env
-	var out bytes.Buffer
-	cmd.Stdout, cmd.Stderr = &out, &out
-	err := cmd.Run()
+	listArgs = append(listArgs, pkgRel)
+	out, errOut, err := run(listArgs...)
+	if err != nil {
+		return nil, fmt.Errorf("go list -export failed: %v: %s", err, trunc(strings.Join(strings.Fields(errOut), " "), 400))
+	}
+	var target *listedPkg
+	var cfg strings.Builder
+	dec := json.NewDecoder(strings.NewReader(out))
+	for dec.More() {
+		var lp listedPkg
+		if err := dec.Decode(&lp); err != nil {
+			return nil, fmt.Errorf("go list -export: %v", err)
+		}
+		if !lp.DepOnly {
+			if target != nil {
+				return nil, fmt.Errorf("go list -export %s: more than one package", pkgRel)
+			}
+			t := lp
+			target = &t
+			continue
+		}
+		if lp.Export != "" {
+			fmt.Fprintf(&cfg, "packagefile %s=%s\n", lp.ImportPath, lp.Export)
+		}
+	}
+	if target == nil {
+		return nil, fmt.Errorf("go list -export %s: package not listed", pkgRel)
+	}
+	if n := len(target.CgoFiles) + len(target.SFiles) + len(target.EmbedPatterns); n > 0 {
+		return nil, fmt.Errorf("%s has cgo, assembly or embedded files: it cannot be compiled on its own", target.ImportPath)
+	}
+	if len(target.GoFiles) == 0 {
+		return nil, fmt.Errorf("%s has no Go files", target.ImportPath)
+	}
+	for from, to := range target.ImportMap {
+		fmt.Fprintf(&cfg, "importmap %s=%s\n", from, to)
+	}
+	cfgFile := filepath.Join(tmp, "importcfg")
+	if err := os.WriteFile(cfgFile, []byte(cfg.String()), 0o644); err != nil {
+		return nil, err
+	}
+	sentinel := filepath.Join(tmp, "zz_sqljsonlint_sentinel.go")
+	if err := os.WriteFile(sentinel, []byte(fmt.Sprintf(bceSentinel, target.Name)), 0o644); err != nil {
+		return nil, err
+	}
+	args := []string{"tool", "compile", "-o", filepath.Join(tmp, "pkg.a"), "-p", target.ImportPath}
+	if target.Module != nil && target.Module.GoVersion != "" {
+		v := strings.Split(target.Module.GoVersion, ".")
+		if len(v) >= 2 {
+			args = append(args, "-lang=go"+v[0]+"."+v[1])
+		}
+	}
+	args = append(args, "-complete", "-nolocalimports", "-importcfg", cfgFile, "-pack", "-d=ssa/check_bce/debug=1")
+	for _, f := range target.GoFiles {
+		abs := filepath.Join(target.Dir, f)
+		if r, ok := rep[abs]; ok {
+			abs = r
+		}
+		args = append(args, abs)
+	}
+	args = append(args, sentinel)
+	out, errOut, err = run(args...)
 	var fs []bceFinding
 	var other []string
-	for _, ln := range strings.Split(out.String(), "\n") {
+	sentinelSeen, sentinelExtra := false, false
+	for _, ln := range strings.Split(out+"\n"+errOut, "\n") {
 		ln = strings.TrimSpace(ln)
 		if ln == "" || strings.HasPrefix(ln, "#") {
 			continue
@@ -80,16 +196,33 @@ func (p *Prog) compilerBCE(pkgRel string) ([]bceFinding, error) {
 		l, _ := strconv.Atoi(m[2])
 		c, _ := strconv.Atoi(m[3])
 		f := m[1]
+		if f == sentinel {
+			if l == bceSentinelUnprovenLine {
+				sentinelSeen = true
+			} else {
+				sentinelExtra = true
+			}
+			continue
+		}
+		if o, ok := back[f]; ok {
+			f = o
+		}
 		if !filepath.IsAbs(f) {
 			f = filepath.Join(p.RepoDir, f)
 		}
 		fs = append(fs, bceFinding{f, l, c, m[4]})
 	}
 	if err != nil {
-		return nil, fmt.Errorf("go build failed: %v: %s", err, trunc(strings.Join(other, "; "), 400))
+		return nil, fmt.Errorf("go tool compile failed: %v: %s", err, trunc(strings.Join(other, "; "), 400))
 	}
 	if len(other) > 0 {
 		return nil, fmt.Errorf("unexpected compiler output: %s", trunc(strings.Join(other, "; "), 300))
+	}
+	if !sentinelSeen {
+		return nil, fmt.Errorf("the compiler did not report the unbounded index of the sentinel function compiled with %s: its bounds-check report is not being seen, nothing can be concluded from it", target.ImportPath)
+	}
+	if sentinelExtra {
+		return nil, fmt.Errorf("the compiler reported the length-tested index of the sentinel function compiled with %s: the prove pass did not run, its report proves nothing", target.ImportPath)
 	}
 	return fs, nil
 }
@@ -163,6 +296,8 @@ var ruleBCE = &Rule{
 			out.undecided("compiler prove pass", "-", "", err.Error())
 			return out
 		}
+		out.Counts["compiler_sentinel_confirmed"] = 1 // compilerBCE fails unless the sentinel function was reported as expected
+		out.Floors["compiler_sentinel_confirmed"] = 1
 		out.Counts["unproven_checks_in_package"] = len(fs)
 		sort.Slice(fs, func(i, j int) bool {
 			if fs[i].File != fs[j].File {
